@@ -339,3 +339,30 @@ def unit_chain_grammar(rng):
         last.append(["'e'", "'e'"])
     prods.append((names[-1], last))
     return prods, gr_text(prods)
+
+
+def follow_chain_grammar(rng):
+    """Deterministic grammars in which FOLLOW has to travel down a chain of nonterminals that are
+    declared bottom-up (X3 before X2 before X1), each the tail of the next one's production: the
+    SLR FOLLOW fixpoint needs as many passes as the chain is long, and the first pass ends with a
+    production that adds nothing."""
+    depth = rng.randint(2, 4)
+    tails = rng.sample(["'x'", "'y'", "'w'"], rng.randint(2, 3))
+    s_alts = [["X1", tails[0]], ["'z'", "X1", tails[1]]]
+    if len(tails) > 2:
+        s_alts.append(["'q'", "X1", tails[2]])
+    prods = [("S", s_alts)]
+    letters = ["'a'", "'b'", "'c'", "'d'"]
+    chain = []
+    for i in range(1, depth + 1):
+        if i < depth:
+            alts = [[letters[i - 1], "X%d" % (i + 1)]]
+            if rng.random() < 0.6:
+                alts.append([letters[i - 1]])
+        else:
+            alts = [[letters[i - 1]]]
+            if rng.random() < 0.4:
+                alts.append([])
+        chain.append(("X%d" % i, alts))
+    prods += list(reversed(chain))
+    return prods, gr_text(prods)
